@@ -75,10 +75,10 @@ Qed.
 Section WithM.
 Variable M : Q.
 
-Lemma inv_intro p b c q f :
+Lemma inv_intro p b c q f rn :
   (forall b', b = Some b' -> length (ba_c b') = ncol p /\ length (ba_r b') = nrow p) ->
   (forall c', c = Some c' -> dims_ok_c p c') ->
-  Inv_dims {| a_p := p; a_basis := b; a_cache := c; a_qstatus := q; a_factorok := f |}.
+  Inv_dims {| a_p := p; a_basis := b; a_cache := c; a_qstatus := q; a_factorok := f; a_rn := rn |}.
 Proof. intros A B. split; simpl; assumption. Qed.
 
 Lemma inv_free s : Inv_dims s -> Inv_dims (free_cache s).
@@ -283,7 +283,7 @@ Proof.
   destruct (match a_basis s, a_cache s with Some _, Some _ => (negb d || a_factorok s)%bool | _, _ => false end); [exact I|].
   assert (G : Inv_dims {| a_p := a_p s; a_basis := Some (an_basis r);
                           a_cache := if (an_status r =? ST_OPTIMAL)%Z then Some (an_sol r) else None;
-                          a_qstatus := an_status r; a_factorok := true |}).
+                          a_qstatus := an_status r; a_factorok := true; a_rn := an_rn r |}).
   { apply inv_intro.
     - intros b H; inversion H; subst. split; assumption.
     - intros c H. destruct (an_status r =? ST_OPTIMAL)%Z; [inversion H; subst; exact R3|discriminate]. }
@@ -509,7 +509,7 @@ Proof.
     destruct (match a_basis s, a_cache s with Some _, Some _ => (negb dual || a_factorok s)%bool | _, _ => false end); [exact I|].
     assert (G : Inv_cache M {| a_p := a_p s; a_basis := Some (an_basis r);
                                a_cache := if (an_status r =? ST_OPTIMAL)%Z then Some (an_sol r) else None;
-                               a_qstatus := an_status r; a_factorok := true |}).
+                               a_qstatus := an_status r; a_factorok := true; a_rn := an_rn r |}).
     { intros c Hc. simpl in *. destruct (an_status r =? ST_OPTIMAL)%Z eqn:E; [|discriminate]. inversion Hc; subst.
       apply H. apply Z.eqb_eq. exact E. }
     destruct (a_basis s) as [b|]; [|exact G]. destruct (dims_ok_b (a_p s) b); [exact G|]. exact I.
